@@ -1,8 +1,9 @@
-// Demonstration of the four defects repaired by the "fix:" commits in /repo.
+// Demonstration of the five defects repaired by the "fix:" commits in /repo.
 // Copy to /repo/tests/defects_demo.rs and run `cargo test --offline --test defects_demo`:
 // every test fails on the pinned snapshot 88c1338 and passes on the repaired tree.
 use fst::raw::{Builder, Fst};
 use fst::Streamer;
+use fst::SetBuilder;
 use std::io;
 
 struct Trickle(Vec<u8>, usize);
@@ -77,4 +78,34 @@ fn c01_add_after_insert_is_zero() {
     let mut s = fst.stream();
     while let Some((k, o)) = s.next() { got.push((k.to_vec(), o.value())); }
     assert_eq!(got, vec![(b"a".to_vec(), 5), (b"ab".to_vec(), 0), (b"ac".to_vec(), 9)]);
+}
+
+// C06 (fixed by 3c9cd25): SetBuilder::extend_stream rejected a repeated key
+struct Rep { xs: Vec<Vec<u8>>, i: usize }
+impl<'a> Streamer<'a> for Rep {
+    type Item = &'a [u8];
+    fn next(&'a mut self) -> Option<&'a [u8]> {
+        if self.i < self.xs.len() { self.i += 1; Some(&self.xs[self.i - 1]) } else { None }
+    }
+}
+
+#[test]
+fn c06_set_extend_stream_repeat_is_noop() {
+    // insert: a repeat is a no-op
+    let mut b = SetBuilder::memory();
+    b.insert("a").unwrap();
+    b.insert("a").unwrap();
+    b.insert("b").unwrap();
+    let s1 = b.into_set();
+    // extend_iter: same
+    let mut b = SetBuilder::memory();
+    b.extend_iter(vec!["a", "a", "b"]).unwrap();
+    let s2 = b.into_set();
+    assert_eq!(s1.as_fst().as_bytes(), s2.as_fst().as_bytes());
+    // extend_stream: same keys
+    let mut b = SetBuilder::memory();
+    let r = b.extend_stream(Rep { xs: vec![b"a".to_vec(), b"a".to_vec(), b"b".to_vec()], i: 0 });
+    assert!(r.is_ok(), "extend_stream rejected a repeated key that insert accepts: {:?}", r);
+    let s3 = b.into_set();
+    assert_eq!(s1.as_fst().as_bytes(), s3.as_fst().as_bytes());
 }
